@@ -78,6 +78,7 @@ Proof.
   destruct (store_get (t2 (dbs s)) id None) as [[e k0]| |] eqn:Eg; try discriminate.
   apply store_get_ok in Eg as [Le ->].
   destruct (opt_is_some (rto e)) eqn:Rto; [discriminate|].
+  destruct (mem _ (rejd (dbs s))); [discriminate|].
   destruct (negb (rk e =? r2_rk c)); [discriminate|].
   destruct (negb (hk e =? r2_hk c)); [discriminate|].
   destruct (negb (wstart e =? r2_ph c)); [discriminate|].
@@ -133,6 +134,7 @@ Proof.
   unfold m_renew2 in E. destruct (negb wf); [discriminate|]. unfold mbind in E.
   destruct (store_get (t2 (dbs s)) old None) as [[e k0]| |] eqn:Eg; try discriminate.
   apply store_get_ok in Eg as [Le ->].
+  destruct (mem old (rejd (dbs s))); [discriminate|].
   destruct (negb (r2_fsize c =? fsize e)) eqn:E1; [discriminate|].
   destruct (negb (r2_cap c =? cap e)) eqn:E2; [discriminate|].
   destruct (negb (r2_mroot c =? mroot e)) eqn:E3; [discriminate|].
@@ -236,18 +238,19 @@ Proof.
   now rewrite E.
 Qed.
 
-(* a well-formed v2 revision of a live contract whose new sectors are stored is accepted *)
+(* a well-formed v2 revision of a live contract (not renewed, not rejected) whose new sectors are stored
+   is accepted *)
 Lemma revise2_accepted s id e c newroots :
-  Inv s -> alookup id (t2 (dbs s)) = Some e -> rto e = None ->
+  Inv s -> alookup id (t2 (dbs s)) = Some e -> rto e = None -> mem id (rejd (dbs s)) = false ->
   rk e = r2_rk c -> hk e = r2_hk c -> wstart e = r2_ph c -> expi e = r2_exp c ->
   r2_fsize c = sector_size * nlen newroots -> r2_fsize c <= r2_cap c ->
   r2_mroot c = meta newroots -> all_stored (stored (dbs s)) newroots = true ->
   snd (step s (Revise2 id c newroots (meta newroots) true true None)) = ORes (Ok tt) /\
   cache_get (fst (step s (Revise2 id c newroots (meta newroots) true true None))) id = newroots.
 Proof.
-  intros I L R K1 K2 K3 K4 Fs Cp Mr St.
+  intros I L R Rj K1 K2 K3 K4 Fs Cp Mr St.
   destruct (live_rows meta _ _ _ _ _ (inv_t2 meta s I) L R) as (Hrows & _).
-  cbn [step]. unfold m_revise2, mbind. rewrite (store_get_run _ _ _ L), R. cbn [opt_is_some].
+  cbn [step]. unfold m_revise2, mbind. rewrite (store_get_run _ _ _ L), R, Rj. cbn [opt_is_some].
   rewrite K1, K2, K3, K4, !N.eqb_refl. cbn [negb].
   replace (r2_fsize c =? sector_size * nlen newroots) with true by lia.
   replace (r2_cap c <? r2_fsize c) with false by lia.
@@ -361,6 +364,7 @@ Proof.
   assert (H0 : exists x, step s (Renew2 id d c mold wf None) = (s, ORes (Err x))).
   { cbn [step]. unfold m_renew2. destruct (negb wf); [now eexists|].
     unfold mbind. rewrite (store_get_run _ _ _ L).
+    destruct (mem _ (rejd (dbs _))); [now eexists|].
     destruct (negb (r2_fsize c =? fsize e)); [now eexists|].
     destruct (negb (r2_cap c =? cap e)); [now eexists|].
     destruct (negb (r2_mroot c =? mroot e)); [now eexists|].
